@@ -89,6 +89,11 @@ pub struct Case {
     pub dflt: Lit,
     #[serde(default)]
     pub excluded_nested_bmp: usize,
+    /// decoy types that reuse the enumerals / named numbers / named bits of the case's types
+    /// with other numbers: 1 = sorted before every other definition (`Aa-Decoy<i>`),
+    /// 2 = after (`Zz-Decoy<i>`), 3 = both. Resolution must go by the governing type.
+    #[serde(default)]
+    pub decoys: u8,
 }
 
 struct G<'a, 'b> {
@@ -693,7 +698,42 @@ pub fn gen_case(stream: &[u32], opts: GenOpts) -> Case {
     let holder = g.src.chance(80);
     let dflt = g.gen_value(subject, 0);
     let excluded = g.excluded_nested_bmp;
-    Case { types: g.types, subject, alias_depth, aux: g.aux, v0, chain, holder, dflt, excluded_nested_bmp: excluded }
+    let decoys = if g.src.chance(20) { 1 + g.src.pick(3) as u8 } else { 0 };
+    Case { types: g.types, subject, alias_depth, aux: g.aux, v0, chain, holder, dflt, excluded_nested_bmp: excluded, decoys }
+}
+
+/// the decoy definitions of a case (see `Case::decoys`)
+fn decoy_text(c: &Case) -> String {
+    let mut s = String::new();
+    for (prefix, on) in [("Aa-Decoy", c.decoys & 1 != 0), ("Zz-Decoy", c.decoys & 2 != 0)] {
+        if !on {
+            continue;
+        }
+        for (i, t) in c.types.iter().enumerate() {
+            if t.inline {
+                continue;
+            }
+            match &t.k {
+                K::Enum { root, ext } => {
+                    // same enumerals, other numbers: reversed order behind a padding enumeral
+                    let mut names: Vec<&String> = root.iter().map(|x| &x.0).collect();
+                    if let Some(e) = ext {
+                        names.extend(e.iter().map(|x| &x.0));
+                    }
+                    names.reverse();
+                    s.push_str(&format!("{prefix}{i} ::= ENUMERATED {{ zz-pad, {} }}\n", names.iter().map(|n| n.to_string()).collect::<Vec<_>>().join(", ")));
+                }
+                K::Int { named, .. } if !named.is_empty() => {
+                    s.push_str(&format!("{prefix}{i} ::= INTEGER {{ {} }}\n", named.iter().map(|(n, v)| format!("{n}({})", v.wrapping_add(7))).collect::<Vec<_>>().join(", ")));
+                }
+                K::Bits { named } if !named.is_empty() => {
+                    s.push_str(&format!("{prefix}{i} ::= BIT STRING {{ {} }}\n", named.iter().map(|(n, p)| format!("{n}({})", p + 3)).collect::<Vec<_>>().join(", ")));
+                }
+                _ => {}
+            }
+        }
+    }
+    s
 }
 
 // ------------------------------------------------------------------------------------------
@@ -770,6 +810,7 @@ pub fn case_text(c: &Case, module: &str) -> String {
             s.push_str(&format!("{} ::= {}\n", t.name, kind_text(c, &t.k)));
         }
     }
+    s.push_str(&decoy_text(c));
     for d in 1..=c.alias_depth {
         let target = if d == 1 { ty_ref(c, c.subject) } else { format!("Al{}", d - 1) };
         s.push_str(&format!("Al{d} ::= {target}\n"));
@@ -1243,6 +1284,9 @@ fn judge(ctx: &mut Ctx, prep: &Prepared) -> Judged {
                 ctx.class(if p.label.starts_with("DEFAULT") { "position:DEFAULT" } else { "position:value-assignment" });
                 ctx.class(&format!("value-ref-chain:{}", p.via_refs.min(5)));
                 ctx.class(&format!("type-ref-chain:{}", c.alias_depth));
+                if !decoy_text(c).is_empty() {
+                    ctx.class(&format!("decoy-types-sharing-names:{}", c.decoys));
+                }
                 for f in &p.forms {
                     ctx.class(&format!("form:{f}"));
                 }
@@ -1306,6 +1350,13 @@ fn shrink_case(host: &Host, case: &Case, key: &str, finding: Option<&'static str
         if best.chain > 0 {
             cands.push(Case { chain: 0, ..best.clone() });
             cands.push(Case { chain: best.chain - 1, ..best.clone() });
+        }
+        if best.decoys != 0 {
+            cands.push(Case { decoys: 0, ..best.clone() });
+            if best.decoys == 3 {
+                cands.push(Case { decoys: 1, ..best.clone() });
+                cands.push(Case { decoys: 2, ..best.clone() });
+            }
         }
         if best.holder {
             cands.push(Case { holder: false, ..best.clone() });
